@@ -21,12 +21,12 @@ def unquoteBytes : Str → List UInt8
   | [] => []
   | [c] => [byteOf c]
   | [c, d] => [byteOf c, byteOf d]
-  | c :: rest@(h :: l :: rest') =>
+  | c :: h :: l :: rest' =>
     if c = '%' then
       match hexVal h, hexVal l with
       | some a, some b => UInt8.ofNat (a * 16 + b) :: unquoteBytes rest'
-      | _, _ => byteOf c :: unquoteBytes rest
-    else byteOf c :: unquoteBytes rest
+      | _, _ => byteOf c :: unquoteBytes (h :: l :: rest')
+    else byteOf c :: unquoteBytes (h :: l :: rest')
 
 def isCont (b : UInt8) : Bool := 0x80 ≤ b && b ≤ 0xBF
 
@@ -121,7 +121,7 @@ def unquote (s : Str) : Str :=
 def repl2 (a b r : Char) : Str → Str
   | [] => []
   | [x] => [x]
-  | x :: t@(y :: rest) => if x = a ∧ y = b then r :: repl2 a b r rest else x :: repl2 a b r t
+  | x :: y :: rest => if x = a ∧ y = b then r :: repl2 a b r rest else x :: repl2 a b r (y :: rest)
 
 /-- `part.replace("~1", "/").replace("~0", "~")` -/
 def unescapeToken (s : Str) : Str := repl2 '~' '0' '~' (repl2 '~' '1' '/' s)
